@@ -236,6 +236,18 @@ def _line_callback(code, line):
     return None
 
 
+def _jump_callback(code, offset, destination):
+    # a backward jump is the end of one loop iteration (also inside comprehensions and
+    # generator expressions, which are a single source line): iterating a container that
+    # another thread changes must be interruptible between two items
+    if destination < offset:
+        sched = S.ACTIVE
+        if sched is not None and sched.line_points and not sched.aborting:
+            if sched.me() is not None:
+                sched.point("loop:%s:%s" % (code.co_filename.rsplit("/", 1)[-1], code.co_name))
+    return None
+
+
 def enable_line_points(package_dir: str):
     """A scheduling point before every source line of the python files below ``package_dir``"""
     import os
@@ -244,6 +256,7 @@ def enable_line_points(package_dir: str):
     if mon.get_tool(_TOOL) is None:
         mon.use_tool_id(_TOOL, "cosched")
         mon.register_callback(_TOOL, mon.events.LINE, _line_callback)
+        mon.register_callback(_TOOL, mon.events.JUMP, _jump_callback)
     for name in sorted(os.listdir(package_dir)):
         if not name.endswith(".py"):
             continue
@@ -269,8 +282,20 @@ def enable_line_points(package_dir: str):
                 for code in _code_objects(func_code):
                     if code not in seen:
                         seen.add(code)
-                        mon.set_local_events(_TOOL, code, mon.events.LINE)
+                        mon.set_local_events(_TOOL, code, mon.events.LINE | mon.events.JUMP)
                         _line_codes.append(code)
+    # the weak set that holds the service units is shared between threads: its own loops
+    # (iteration, guard, add/remove) are interruptible too
+    import _weakrefset
+
+    for holder in (_weakrefset.WeakSet, _weakrefset._IterationGuard):
+        for attr in vars(holder).values():
+            func_code = getattr(attr, "__code__", None)
+            if func_code is None:
+                continue
+            for code in _code_objects(func_code):
+                mon.set_local_events(_TOOL, code, mon.events.LINE | mon.events.JUMP)
+                _line_codes.append(code)
 
 
 def disable_line_points():
